@@ -512,6 +512,7 @@ class Gen:
         self.ns_pool = [f"urn:vf:{salt}:a", f"http://vf.test/{salt}/b", f"urn:vf:{salt}:c#frag"]
         self.used = set()
         self.seq_counter = 0
+        self.boost = set()  # features a check wants more often than the default mix
 
     def on(self, f, p=0.5):
         return f in self.features and self.rng.random() < p
@@ -644,6 +645,8 @@ class Gen:
         for k in range(nf):
             r = rng.random()
             fname = self.uname(rng.choice(["a", "b", "c", "val", "item", "x_y", "node", "flag", "count", "ref"]))
+            if "wildcard" in self.boost and "wildcard" in self.features and not has_wild and not have_text and rng.random() < 0.35:
+                r = 0.35
             if chain_mixed:
                 r = 0.1  # a mixed wildcard in a base captures every child: only attributes may be added
                 if "attribute" not in self.features:
@@ -1116,19 +1119,50 @@ class InstGen:
     def wildcard_value(self, f, depth, class_ns):
         rng = self.rng
         allowed = wildcard_ns_for(self.m, f, class_ns)
+        models = self.wildcard_model_classes(f, class_ns) if depth < self.max_depth else []
         if f.container == "opt":
             if rng.random() < 0.3:
                 return None
+            if models and rng.random() < 0.45:
+                self.wildcard_model_count += 1
+                return self.obj(rng.choice(models), depth + 1)
             return self.any_element(depth, root_ns=allowed)
         items = []
         if f.mixed and rng.random() < 0.5:
             items.append(rng.choice(["mixed text", "m", "ä b"]))  # leading text; later text lives in AnyElement.tail
         for _ in range(rng.randrange(0, 4)):
+            if models and not f.mixed and rng.random() < 0.4:
+                self.wildcard_model_count += 1
+                items.append(self.obj(rng.choice(models), depth + 1))
+                continue
             el = self.any_element(depth, root_ns=allowed)
             if f.mixed and rng.random() < 0.4:
                 el.tail = rng.choice(["tail text", "t"])
             items.append(el)
         return items
+
+    wildcard_models = True
+    wildcard_model_count = 0
+
+    def wildcard_model_classes(self, f, class_ns):
+        """Model classes whose instances may sit in wildcard field f: a known global element inside a
+        wildcard is bound to its class (found by its qualified name) and written under that name again.
+        Only classes whose qualified name does not depend on where they are used (Meta.namespace given) and equals the name they are indexed under."""
+        if not self.wildcard_models or self.json_mode:
+            return []
+        out = []
+        for c in self.m.classes:
+            if not (c.has_meta and c.has_namespace) or self.ref.class_qname(c) != self.ref.class_target_qname(c):
+                continue  # the type index is keyed by target namespace (module __NAMESPACE__ when set)
+            if (c.nillable if c.has_meta else False) or c.name == self.m.root:
+                continue
+            q = self.ref.class_qname(c)
+            ns = q[1:].split("}")[0] if q.startswith("{") else None
+            w = f.namespace
+            ok = {None: ns == class_ns, "##any": True, "##other": ns is not None and ns != class_ns, "##local": ns is None, "##targetNamespace": ns == class_ns}.get(w, ns == (w or None))
+            if ok:
+                out.append(c.name)
+        return out
 
     def compound_value(self, f, depth):
         rng = self.rng
@@ -1423,6 +1457,9 @@ class Ref:
                 out.append(self.any_element(x))
                 if x.tail:
                     out.append(x.tail)
+            elif hasattr(x, "__dataclass_fields__") and any(k.name == type(x).__name__ for k in self.m.classes):
+                # a model instance in a wildcard is written as the global element of its class
+                out.append(self.dataclass(x, self.class_qname(self.m.cls(type(x).__name__))))
             else:
                 raise Unsupported("wildcard value kind")
         return out
